@@ -68,7 +68,12 @@ MsOnlyP1  == [p \in Peers |-> IF p = "p1" THEN "v1" ELSE "bad"]
 MsSet     == {MsGood, MsP2Bad, MsOnlyP1}
 Defaults  == {<<0 - 1, 0 - 1>>, <<1, 2>>, <<2, 3>>}
 EnvOf(fo, d, st, m, fl) == [follower |-> fo, dmin |-> d[1], dmax |-> d[2], strat |-> st, ms |-> m, paths |-> AllPaths,
-                            blocks |-> AllBlocks, fail |-> fl]
+                            blocks |-> AllBlocks, fail |-> fl, logfail |-> <<>>]
+WithLF(e, lf) == [e EXCEPT !.logfail = lf]
+\* consensus faults: LogUnpin failing for a shard in either position, the cluster-DAG, the meta pin, a data pin;
+\* LogPin failing for a CID
+LogFailSet == {<<>>, << <<"unpin", "s1">> >>, << <<"unpin", "s2">> >>, << <<"unpin", "d1">> >>, << <<"unpin", "m1">> >>,
+               << <<"unpin", "c2">> >>, << <<"pin", "c1">> >>, << <<"pin", "c3">>, <<"unpin", "s1">> >>}
 FailSet == {<<>>, <<"d1">>, <<"s1">>, <<"s2", "d1">>}
 MainEnvs == {EnvOf(FALSE, d, "asc", MsGood, <<>>) : d \in Defaults}
             \cup T({}, {EnvOf(FALSE, <<2, 3>>, "asc", MsP2Bad, <<>>)})
@@ -77,7 +82,8 @@ SideEnvs == {EnvOf(TRUE, <<1, 2>>, "asc", MsGood, <<>>), EnvOf(FALSE, <<1, 2>>, 
              EnvOf(FALSE, <<1, 2>>, "asc", MsP2Bad, <<>>),
              EnvOf(FALSE, <<2, 3>>, "asc", MsOnlyP1, <<>>), EnvOf(FALSE, <<1, 2>>, "asc", MsGood, <<"s1">>),
              EnvOf(FALSE, <<2, 3>>, "asc", MsGood, <<"s2", "d1">>)}
-Envs == MainEnvs \cup SideEnvs
+FaultEnvs == {WithLF(EnvOf(FALSE, <<1, 2>>, "asc", MsGood, <<>>), lf) : lf \in LogFailSet \ {<<>>}}
+Envs == MainEnvs \cup SideEnvs \cup FaultEnvs
 
 \* ---- calls ----
 PinCall(c, o)   == [op |-> "pin", cid |-> c, o |-> o]
